@@ -73,6 +73,7 @@ Definition step (st : rstate) (op : list tok) : rstate * list tok :=
         end
       | _ => bad
       end
+    else if name =? "bbobs" then (st, args)      (* a replayed strict-SNI black-box scenario (c17sni): the model is not involved, the observation is handed through (props/c17.py:model_ops) *)
     else if name =? "authsni" then
       match args with
       | [TB a; TB sni] => (st, [tn_bool (authority_matches_sni a sni)])
